@@ -28,3 +28,40 @@ package vm
 //@   assumed
 //@   modifies wVersion, sdbOther[payload(d)]
 //@   panics any
+
+// ---------------------------------------------------------------------------------------------
+// state_db_account_tracker.go — AccountTracker (a Go map used as a set; maps are references)
+// ---------------------------------------------------------------------------------------------
+
+//@ func newAccountTracker() AccountTracker
+//@   modifies nothing
+//@   ensures[C03.tracker_new] result != nil && fresh(result) && (forall a common.Address :: !(a in result))
+//@   panics never
+
+//@ func (t AccountTracker) Add(addr common.Address)
+//@   requires t != nil
+//@   modifies contents(t)
+//@   ensures[C03.tracker_add] keys(t) == old(keys(t))[addr := true]
+//@   panics never
+
+//@ func (t AccountTracker) Has(addr common.Address) bool
+//@   modifies nothing
+//@   ensures[C03.tracker_has] result == (addr in t)
+//@   panics never
+
+//@ func (t AccountTracker) Delete(addr common.Address)
+//@   modifies contents(t)
+//@   ensures[C03.tracker_delete] keys(t) == old(keys(t))[addr := false]
+//@   panics never
+
+// Copy: a NEW map with the same keys and values (deep copy: the result shares nothing with t).
+//@ func (t AccountTracker) Copy() AccountTracker
+//@   modifies nothing
+//@   ensures[C03.tracker_copy_fresh] result != nil && fresh(result)
+//@   ensures[C03.tracker_copy_equal] forall a common.Address :: (a in result) == (a in t) && result[a] == t[a]
+//@   panics never
+//@ loop 1
+//@   modifies contents(tracker)
+//@   invariant tracker != nil && fresh(tracker)
+//@   invariant forall a common.Address :: (a in tracker) == (visited[a] && (a in t))
+//@   invariant forall a common.Address :: (a in tracker) ==> tracker[a] == t[a]
